@@ -27,7 +27,7 @@ func (c10) Meta() core.Meta {
 		Rule:        "case i = f(seed,i): JSON/XML-shaped Map over a 4-key alphabet (k present at several levels, absent at the addressed node, list as the node before the last key, list- and map-valued targets) + key k + plain/wildcard path in both addressing forms (path ends in k / k is an entry of the nodes the path yields) + 0..2 sub-key conditions (numeric ones incl. near misses of real values; separators ':' '|' ';' and the multi-byte '=>' '::' '§') + new value given as a single-entry map (string, number or map sentinel), as mxj.Map, or as a 'key:value[:type]' string (default and alternative separator). The new value is a sentinel that occurs nowhere in the Map, so the set of replaced slots is read off the result. Invariants: frame (everything but sentinel slots unchanged, nothing added or removed), soundness and completeness of the sentinel slots against the reference addressed set (three-valued sub-key predicate; for a list-valued target the condition may be read on the parent or on the members), count == number of sentinel slots, count 0 => untouched, ValuesForPath afterwards == count copies when the path ends in k without sub-keys; j2x wrapper returns the encoding of the result. Non-trivial: at least one addressed slot; distinct by hash(map,k,path,subkeys).",
 		Assumptions: []string{"reference addressed-slot set written from the property statement (DESIGN 4 C10)", "a negated typed sub-key on an absent key is unspecified"},
 		Anchors:     []string{"Map.UpdateValuesForPath", "updateValuesForKeyPath", "updateValue", "j2x.JsonUpdateValsForPath"},
-		Floors:      map[string]int64{"addressed>0": 3000, "addressed>1": 300, "shape:list-before-last-key": 200, "shape:key-absent-at-node": 500, "shape:wildcard-last": 200, "shape:list-valued-target": 100, "subkeys:some-replaced": 100, "form:string": 1000, "form:typed-num": 200, "alias:list-stored-twice": 1000},
+		Floors:      map[string]int64{"addressed>0": 3000, "addressed>1": 300, "shape:list-before-last-key": 200, "shape:key-absent-at-node": 500, "shape:wildcard-last": 200, "shape:list-valued-target": 100, "subkeys:some-replaced": 100, "form:string": 1000, "form:typed-num": 200, "alias:list-stored-twice": 1000, "form:typed-bool": 300, "malformed-newval:error": 300},
 	}
 }
 
@@ -258,6 +258,27 @@ func (c10) Case(c *core.Ctx) {
 	keys := keyAlphabet(r, c10keys)
 	g := jv.GenOpt{Keys: keys, MaxFan: 3, WideProb: 60, ListInList: r.Intn(3) == 0, EmptyConts: true, Nulls: true, Scalars: c08scalar}.Fresh()
 	root := jv.M{"doc": g.Value(r, 1+r.Intn(5), false)}
+	boolForm := r.Intn(12) == 0
+	if boolForm {
+		// the typed 'key:value:bool' form: the sentinel is a bool, so the Map must not hold one
+		var strip func(v interface{}) interface{}
+		strip = func(v interface{}) interface{} {
+			switch t := v.(type) {
+			case bool:
+				return "was-bool"
+			case map[string]interface{}:
+				for kk, e := range t {
+					t[kk] = strip(e)
+				}
+			case []interface{}:
+				for i, e := range t {
+					t[i] = strip(e)
+				}
+			}
+			return v
+		}
+		strip(map[string]interface{}(root))
+	}
 	before := jv.Copy(root).(jv.M)
 	beforeFp := jv.Fp(before)
 	k := keys[r.Intn(len(keys))]
@@ -286,6 +307,9 @@ func (c10) Case(c *core.Ctx) {
 	sep := ":"
 	goTyped := false
 	form := r.Intn(6)
+	if boolForm {
+		form = 6
+	}
 	if form >= 4 && (strings.TrimSpace(k) != k || k == "") {
 		form = 0 // the string form of the new value does not define blanks around the key: use the map form
 	}
@@ -314,6 +338,15 @@ func (c10) Case(c *core.Ctx) {
 		sent = fmt.Sprintf("NEW#%d", c.Index)
 		newVal = k + sep + sent.(string)
 		c.Count("form:string")
+	case 6:
+		if r.Intn(3) == 0 {
+			sep = []string{"|", ";", "=>", "::", "§"}[r.Intn(5)]
+		}
+		b := r.Intn(2) == 0
+		sent = b
+		newVal = k + sep + []string{"true", "false", "T", "F", "1", "0", "TRUE", "False"}[2*r.Intn(4)+map[bool]int{true: 0, false: 1}[b]] + sep + []string{"bool", "boolean"}[r.Intn(2)]
+		c.Count("form:string")
+		c.Count("form:typed-bool")
 	default:
 		if r.Intn(3) == 0 {
 			sep = []string{"|", ";", "=>", "::", "§"}[r.Intn(5)]
@@ -433,6 +466,27 @@ func (c10) Case(c *core.Ctx) {
 	}
 	c.Eval()
 	failedCalls(c, 8)
+	if r.Intn(8) == 0 {
+		// a new value that is not of the documented forms: whatever is answered, an error or a count of zero
+		// must leave the Map untouched
+		bad := []interface{}{
+			map[string]interface{}{k: "X#", k + "2": "Y#"}, map[string]interface{}{}, mxj.Map{}, mxj.Map{k: 1, "z": 2}, k, k + sep + "v" + sep + "num" + sep + "x",
+			k + sep + "abc" + sep + "num", k + sep + "maybe" + sep + "bool", k + sep + "1" + sep + "unknown", k + sep + "" + sep + "boolean", 42, nil, []interface{}{k, "v"}, []string{k + sep + "v"},
+		}[r.Intn(14)]
+		n0, e0 := mxj.Map(root).UpdateValuesForPath(bad, pathStr, specs...)
+		c.Count("malformed-newval")
+		if e0 != nil {
+			c.Count("malformed-newval:error")
+		}
+		if (n0 == 0 || e0 != nil) && jv.Fp(root) != jv.Fp(withAlias(before, aliasKey, aliasList)) {
+			c.Violate("c10-malformed-newval-modified", "UpdateValuesForPath changed the Map although it reported an error or a count of zero", core.D{
+				"before": jv.Show(before), "after": jv.Show(root), "newVal": fmt.Sprintf("%#v", bad), "path": pathStr, "subkeys": fmt.Sprint(specs), "count": n0, "err": fmt.Sprint(e0)})
+			return
+		}
+		if n0 != 0 && e0 == nil {
+			return // accepted as a new value after all (unspecified): this Map is no longer the generated one
+		}
+	}
 	cnt, err := mxj.Map(root).UpdateValuesForPath(newVal, pathStr, specs...)
 	if aliasList != nil {
 		now, isList := root[aliasKey].([]interface{})
@@ -604,6 +658,19 @@ func (c10) Case(c *core.Ctx) {
 			c.Count("api:j2x.JsonUpdateValsForPath")
 		}
 	}
+}
+
+// withAlias: m plus the alias entry of invariant I6 (when there is one), for whole-Map fingerprints taken while it is in.
+func withAlias(m jv.M, key string, l []interface{}) jv.M {
+	if l == nil {
+		return m
+	}
+	o := jv.M{}
+	for k, v := range m {
+		o[k] = v
+	}
+	o[key] = jv.Copy(l)
+	return o
 }
 
 // shallowSame: the same member as before - the same map or list object, or an equal scalar.
